@@ -257,6 +257,14 @@ static void one_case(rng& g, char const* ename, E const& base, int kind, std::si
         std::vector<T> w0;
         for (std::size_t k = 0; k != n; ++k) w0.push_back(T(1 + g.below(5)) / T(3));
         T beta = g.below(2) ? T(0.25) : T(1) / T(3), minw = g.below(2) ? T() : T(0.1) / T(3);
+        if (g.below(2) && n >= 2)
+        {
+            // weights that the minimum weight clamps (normalising them a second time would change them), with a disabled channel
+            w0.assign(n, T(0.05));
+            w0[0] = T(0.9);
+            if (n >= 3) w0[n - 1] = T();
+            minw = T(0.1);
+        }
         auto c = hep::make_multi_channel_chkpt<T, E>(w0, minw, beta, advanced(base, g));
         for (std::size_t i = 0; i != nres; ++i)
         {
